@@ -161,6 +161,7 @@ NegH(h) == {Mk("C09/neg/private", h, <<F("main.tsh", <<Imp("a", "a.tsh")>>, <<Pr
         Mk("C09/neg/transitivealias", h, <<F("main.tsh", <<Imp("a", "a.tsh")>>, <<Print1(ACall("x", "Pub", <<I(1)>>))>>, h), F("a.tsh", <<Imp("x", "b.tsh")>>, ViaBody("a", "x"), h), F("b.tsh", <<>>, FileBody("b", "pub", 2), h)>>),
         Mk("C09/neg/argtype", h, <<F("main.tsh", <<Imp("a", "a.tsh")>>, <<Print1(ACall("a", "Pub", <<StrL("s")>>))>>, h), F("a.tsh", <<>>, FileBody("a", "pub", 1), h)>>)}
 \* the scoping and typing rules hold inside imported files as in the main file (names there carry the file's prefix): one broken construct per library
+PubN == Func("Pub", <<Param("n", "int")>>, <<"int">>, <<RetS(<<Bin("+", Var("n"), I(1))>>)>>)
 LibBad == <<<<"dup-param", <<Func("Pub", <<Param("a", "int"), Param("a", "int")>>, <<"int">>, <<RetS(<<Var("a")>>)>>)>>>>,
             <<"dup-param-3", <<Func("Pub", <<Param("a", "int"), Param("b", "string"), Param("a", "string")>>, <<"int">>, <<RetS(<<I(1)>>)>>)>>>>,
             <<"param-like-global", <<Def1("g", I(1)), Func("Pub", <<Param("g", "int")>>, <<"int">>, <<RetS(<<Var("g")>>)>>)>>>>,
@@ -178,6 +179,20 @@ LibBad == <<<<"dup-param", <<Func("Pub", <<Param("a", "int"), Param("a", "int")>
             <<"return-type", <<Func("Pub", <<Param("n", "int")>>, <<"int">>, <<RetS(<<StrL("s")>>)>>)>>>>,
             <<"arg-type-inside", <<Func("h", <<Param("s", "string")>>, <<"int">>, <<RetS(<<LenE(Var("s"))>>)>>), Func("Pub", <<Param("n", "int")>>, <<"int">>, <<RetS(<<CallE("h", <<Var("n")>>)>>)>>)>>>>,
             <<"nested-func", <<Func("Pub", <<Param("n", "int")>>, <<"int">>, <<RetS(<<Var("n")>>)>>), If1(BoolL(TRUE), <<Func("inner", <<>>, <<>>, <<Print1(I(1))>>)>>)>>>>,
+            \* top-level BLOCKS of an imported file (round 9: names defined there were stored under the file's prefix and then not found, or found twice)
+            <<"topblock-if-ok", <<Def1("ready", BoolL(FALSE)), If1(Not(Var("ready")), <<Def1("msg", StrL("init")), Print1(Var("msg")), Asg1("ready", BoolL(TRUE))>>), PubN>>>>,
+            <<"topblock-else-ok", <<Def1("ready", BoolL(TRUE)), IfElse(Not(Var("ready")), <<Def1("msg", StrL("a")), Print1(Var("msg"))>>, <<Def1("msg", StrL("b")), Def1("k", LenE(Var("msg"))), PrintS(<<Var("msg"), Var("k")>>)>>), PubN>>>>,
+            <<"topblock-for-ok", <<For3(Def1("i", I(0)), CmpE("<", Var("i"), I(2)), Inc("i"), <<Def1("sq", Bin("*", Var("i"), Var("i"))), PrintS(<<Var("i"), Var("sq")>>)>>), PubN>>>>,
+            <<"topblock-range-ok", <<RangeS("i", "w", SliceLit("string", <<StrL("x"), StrL("y")>>), <<Def1("both", Bin("+", Var("w"), Itoa(Var("i")))), Print1(Var("both"))>>), PubN>>>>,
+            <<"topblock-switch-ok", <<Def1("sel", I(2)), Switch(Var("sel"), <<CaseB(I(2), <<Def1("hit", StrL("two")), Print1(Var("hit"))>>)>>, <<Def1("hit", StrL("other")), Print1(Var("hit"))>>, TRUE), PubN>>>>,
+            <<"topblock-nested-ok", <<If1(BoolL(TRUE), <<Def1("outer", I(1)), For3(Def1("i", I(0)), CmpE("<", Var("i"), I(1)), Inc("i"), <<Def1("inner", Bin("+", Var("outer"), Var("i"))), Print1(Var("inner"))>>)>>), PubN>>>>,
+            <<"topblock-redef", <<If1(BoolL(TRUE), <<Def1("x", I(1)), Def1("x", I(2)), Print1(Var("x"))>>), PubN>>>>,
+            <<"topblock-for-redef", <<For3(Def1("i", I(0)), CmpE("<", Var("i"), I(1)), Inc("i"), <<Def1("x", I(1)), Def1("x", I(2))>>), PubN>>>>,
+            <<"topblock-header-redef", <<For3(Def1("i", I(0)), CmpE("<", Var("i"), I(1)), Inc("i"), <<Def1("i", I(5))>>), PubN>>>>,
+            <<"topblock-range-redef", <<RangeS("i", "w", SliceLit("string", <<StrL("x")>>), <<Def1("w", StrL("again"))>>), PubN>>>>,
+            <<"topblock-use-after", <<If1(BoolL(TRUE), <<Def1("t", I(1))>>), Print1(Var("t")), PubN>>>>,
+            <<"topblock-like-global", <<Def1("g", I(1)), If1(BoolL(TRUE), <<Def1("g", I(2))>>), PubN>>>>,
+            <<"topblock-undefined", <<If1(BoolL(TRUE), <<Print1(Var("nowhere"))>>), PubN>>>>,
             <<"ok-control", <<Def1("g", I(1)), Func("Pub", <<Param("n", "int"), Param("m", "int")>>, <<"int">>, <<Def1("t", Bin("+", Var("n"), Var("g"))), RetS(<<Bin("+", Var("t"), Var("m"))>>)>>)>>>>>>
 \* the call itself is always well-formed: the ONLY defect is the one inside the library
 LibArgs(nm) == CASE nm \in {"dup-param", "ok-control"} -> <<I(1), I(2)>> [] nm = "dup-param-3" -> <<I(1), StrL("s"), StrL("t")>> [] OTHER -> <<I(1)>>
@@ -192,6 +207,26 @@ AliasNeg == {Mk("C09/neg/unknownalias-local/" \o nm, "letter", <<F("main.tsh", <
                                                                    F("a.tsh", <<>>, FileBody("a", "pub", 1), "letter")>>) : nm \in {"Pub", "helper", "Same2"}}
             \cup {Mk("C09/neg/alias-of-other-file/" \o nm, "letter", <<F("main.tsh", <<Imp("a", "a.tsh"), Imp("b", "b.tsh")>>, <<Print1(ACall("a", nm, <<I(1)>>))>>, "letter"),
                                                                         F("a.tsh", <<>>, FileBody("a", "pub", 1), "letter"), F("b.tsh", <<>>, FileBody("b", "priv", 2), "letter")>>) : nm \in {"Use", "hidden"}}
+\* ---- a shared file whose importers use DIFFERENT functions of it (round 9: a re-imported file pruned with the call graph of its first importer only).
+\* x.tsh offers F1 -> g1, F2 -> g2, F3 -> F1 + g2 (g1, g2 private); a.tsh and b.tsh each import x and use a subset, main imports a and b in either
+\* order and may use x directly as well (imported first or last)
+XFile == <<Func("g1", <<Param("n", "int")>>, <<"int">>, <<RetS(<<Bin("+", Var("n"), I(1))>>)>>), Func("g2", <<Param("n", "int")>>, <<"int">>, <<RetS(<<Bin("*", Var("n"), I(2))>>)>>),
+           Func("F1", <<Param("n", "int")>>, <<"int">>, <<RetS(<<CallE("g1", <<Var("n")>>)>>)>>), Func("F2", <<Param("n", "int")>>, <<"int">>, <<RetS(<<Bin("+", CallE("g2", <<Var("n")>>), I(100))>>)>>),
+           Func("F3", <<Param("n", "int")>>, <<"int">>, <<RetS(<<Bin("+", CallE("F1", <<Var("n")>>), CallE("g2", <<Var("n")>>))>>)>>), Func("Unused", <<>>, <<"int">>, <<RetS(<<CallE("g1", <<I(0)>>)>>)>>)>>
+UseSets == <<<<>>, <<"F1">>, <<"F2">>, <<"F3">>, <<"F1", "F2">>>>
+RECURSIVE SumUses(_, _, _)
+SumUses(al, us, arg) == IF us = <<>> THEN arg ELSE Bin("+", ACall(al, us[1], <<arg>>), SumUses(al, Tail(us), arg))
+UserFile(fn, us) == <<Func(fn, <<Param("n", "int")>>, <<"int">>, <<RetS(<<SumUses("x", us, Var("n"))>>)>>)>>
+USName(us) == IF us = <<>> THEN "none" ELSE JoinS(us, "")
+AsymCases == {Mk("C09/asym/" \o USName(UseSets[i]) \o "-" \o USName(UseSets[j]) \o "/" \o ord \o "/" \o dir, "letter",
+                 LET fa == F("a.tsh", <<Imp("x", "x.tsh")>>, UserFile("A", UseSets[i]), "letter")
+                     fb == F("b.tsh", <<Imp("x", "x.tsh")>>, UserFile("B", UseSets[j]), "letter")
+                     fx == F("x.tsh", <<>>, XFile, "letter")
+                     ab == IF ord = "ab" THEN <<Imp("a", "a.tsh"), Imp("b", "b.tsh")>> ELSE <<Imp("b", "b.tsh"), Imp("a", "a.tsh")>>
+                     imps == CASE dir = "nodirect" -> ab [] dir = "xfirst" -> <<Imp("d", "x.tsh")>> \o ab [] dir = "xlast" -> ab \o <<Imp("d", "x.tsh")>>
+                     body == <<PrintS(<<ACall("a", "A", <<I(1)>>), ACall("b", "B", <<I(2)>>)>>)>> \o (IF dir = "nodirect" THEN <<>> ELSE <<Print1(ACall("d", "F2", <<I(3)>>))>>)
+                 IN <<F("main.tsh", imps, body, "letter"), fa, fb, fx>>)
+              : i \in 1..Len(UseSets), j \in 1..Len(UseSets), ord \in {"ab", "ba"}, dir \in {"nodirect", "xfirst", "xlast"}}
 Neg == NegH("digit") \cup LibNeg \cup AliasNeg
-ASSUME ndJsonSerialize("fam.ndjson", SetToSeq(S1 \cup S2 \cup S3 \cup S4 \cup S4b \cup S5 \cup S6 \cup S7 \cup S8 \cup AllGraphs \cup SiteCases \cup ChainDepth \cup Neg))
+ASSUME ndJsonSerialize("fam.ndjson", SetToSeq(S1 \cup S2 \cup S3 \cup S4 \cup S4b \cup S5 \cup S6 \cup S7 \cup S8 \cup AllGraphs \cup SiteCases \cup ChainDepth \cup AsymCases \cup Neg))
 =============================================================================
